@@ -98,6 +98,17 @@ package ice
 //@   site call gatherCandidatesInternal#1 assert gathers-only-if-the-cycle-was-admitted: applied && arg1 == ctx
 //@   site call setGatheringState#1 assert announces-gathering-first: arg1 == ctx && arg2 == GatheringStateGathering
 //@   site call setGatheringState#2 assert completes-with-the-same-cycle-context: arg1 == ctx && arg2 == GatheringStateComplete
+//@   site call startNetworkMonitoring#1 assert the-network-monitor-ends-with-the-cycle-that-started-it: arg1 == ctx
+
+// Continual gathering: the monitor re-gathers only inside the cycle it belongs to (the context Restart
+// and Close cancel), and it is the only other caller of the gatherers.
+//@ func (*Agent).startNetworkMonitoring
+//@   props C18
+//@   opt nosafety
+//@   site call gatherCandidatesInternal#1 assert regathers-within-the-monitored-cycle: arg1 == ctx
+//@   site call Done#1 assert stops-when-the-monitored-cycle-is-cancelled: recv == ctx
+//@ enumerate C18 calls ice.(*Agent).gatherCandidatesInternal in (*Agent).gatherCandidates, (*Agent).startNetworkMonitoring
+//@ enumerate C18 calls ice.(*Agent).startNetworkMonitoring in (*Agent).gatherCandidates
 
 //@ func (*Agent).Restart$1
 //@   props C18 C06 C02 C04 C03
